@@ -293,6 +293,8 @@ class Check:
             if self.pid == "C17":
                 # powerlaw_sample and the closed forms of powerlaw_mle_alpha re-translated over the reals (C17_source_*)
                 changed += [body_translator(load("gen_formulas").gen_real)]
+                # downsample of one flat collection, NumPy's random.choice as a function parameter (C17_source_downsample*)
+                changed += [body_translator(load("gen_formulas").gen_downsample)]
             if self.pid == "C13":
                 # renyi2_entropy / stdrenyi2_entropy of pyrepseq/entropy.py re-translated over the reals, the statistics they call as
                 # parameters (C13_source_*)
